@@ -3,20 +3,27 @@ pub mod common;
 pub mod c01;
 pub mod c02;
 pub mod c04;
+pub mod c05;
+pub mod c06;
 pub mod c10;
 pub mod c11;
 pub mod c12;
+pub mod c38;
+pub mod dupseq;
 
 pub fn property(id: &str, ctx: &Ctx) -> Option<Property> {
     Some(match id {
         "C01" => c01::property(ctx),
         "C02" => c02::property(ctx),
         "C04" => c04::property(ctx),
+        "C05" => c05::property(ctx),
+        "C06" => c06::property(ctx),
         "C10" => c10::property(ctx),
         "C11" => c11::property(ctx),
         "C12" => c12::property(ctx),
+        "C38" => c38::property(ctx),
         _ => return None,
     })
 }
 
-pub const ALL: &[&str] = &["C01", "C02", "C04", "C10", "C11", "C12"];
+pub const ALL: &[&str] = &["C01", "C02", "C04", "C05", "C06", "C10", "C11", "C12", "C38"];
